@@ -77,14 +77,7 @@ func (c *Ctx) intLit(v *big.Int, w int) Term {
 
 // typeTag returns the Int tag identifying a dynamic type.
 func (c *Ctx) typeTag(t types.Type) Term {
-	key := types.TypeString(t, nil)
-	id, ok := c.W.typeTags[key]
-	if !ok {
-		id = len(c.W.typeTags) + 1
-		c.W.typeTags[key] = id
-		c.W.tagTypes[id] = t
-	}
-	return IntLitI(int64(id))
+	return IntLitI(int64(c.W.tagOf(t)))
 }
 
 func (c *Ctx) strLit(s string) Term {
